@@ -154,8 +154,19 @@ def check_case(case):
         if not (isinstance(lab, str) and len(lab) == 1):
             multi.append(lab)
     dead = [q for q in a.states if q not in coacc]
+    # states reachable from an initial state: when the language is non-empty every one of them must be normalised - a reachable
+    # state that cannot reach a final state (made dead by the character set) would have mass 0 while an arc leads into it
+    reach = set(q for q, w in a.start.items() if w != 0)
+    changed = True
+    while changed:
+        changed = False
+        for i, _, j, w in a.arcs:
+            if w != 0 and i in reach and j not in reach:
+                reach.add(j)
+                changed = True
+    nonempty = any(q in coacc for q, w in a.start.items() if w != 0)
     for q in sorted(a.states, key=repr):
-        if q not in coacc:
+        if q not in coacc and not (nonempty and q in reach):
             continue
         out["n"] += 1
         if abs(mass[q] - 1.0) > TOL:
@@ -199,8 +210,8 @@ def bounded(run):
              f"rather than this repository's code is a limit of assumption A7, not a violation: a string on which interegular's own FSM "
              f"(fsm.accepts) disagrees with `re` is not evaluated (seen only for bracket classes mixing several negated escapes, which "
              f"interegular combines wrongly); local normalisation is required at every state "
-             f"from which a final state is reachable (a state made dead by the character set - e.g. 'a[^a]' over {{a}} - or the start state of an "
-             f"empty language has no arcs at all and is exempt); weights are read from a neutral snapshot by the independent spec; "
+             f"from which a final state is reachable (when the language is non-empty, also every state reachable from the start state: no mass may flow into a "
+             f"state made dead by the character set; only the states of an automaton with empty language are exempt); weights are read from a neutral snapshot by the independent spec; "
              f"non-trivial = the pattern matches some string of the domain; distinct = (pattern, character set); PYTHONHASHSEED in the listed "
              f"set (interegular numbers its states by set iteration); not covered: lookaheads, anchors, global flags, back references "
              f"(unsupported by interegular or outside the listed operators; seven lookahead / empty-class patterns are included only because "
